@@ -128,7 +128,7 @@ class Link(object):
 
 
 def make_env(link):
-    env = R.Environment.__new__(R.Environment)
+    env = R.Environment()          # the constructor starts nothing; the connection is what a finished start leaves behind
     env.conn = link.client
     return env
 
@@ -152,12 +152,26 @@ def second_root():
     return ROOT2
 
 
+# a chain of aliases deep enough to exhaust the interpreter stack while the attribute tables of a 12-class
+# hierarchy of the project are being collected; what the request itself answers depends on the stack depth it is
+# served at (any well-formed reply is accepted), what LATER requests answer must not
+DEEP = 'from mchain import A11 as C\na0 = C.m0\n' + ''.join('a%d = a%d\n' % (i, i - 1) for i in range(1, 241)) + 'a240.'
+
+
 def alphabet(root):
     f = os.path.join(root, 'x.py')
     return alphabet0(root, f) + [
         ('configure', ({'sources': [second_root()]},)),
         ('assist', ('import m1\nm1.', (2, 3), f)),
         ('location', ('from m1 import fn1\nfn1\n', (2, 3), f)),
+        # new items go to the END (real_cases refers to earlier ones by index)
+        ('eval', ('class E(Exception):\n    def __str__(self):\n        raise RuntimeError("no str")\nraise E()',)),
+        ('eval', ('raise GeneratorExit("gen")',)),
+        ('assist', ('import linter\nlinter.', (2, 7), f)),          # a module of supp itself is not a module of the project
+        ('assist', (DEEP, (243, 5), f)),
+        ('assist', ('from mchain import A11 as C\nC.', (2, 2), f)),
+        ('run', ()),                                                # attributes of the server object that are not requests
+        ('__init__', (None,)),
     ]
 
 
@@ -201,7 +215,13 @@ class Reference(object):
         self.project = None
 
     def expected(self, name, args):
-        """-> ('ok', value) | ('exc', message or None)   (None = any message)"""
+        """-> ('ok', value) | ('exc', message or None)   (None = any message) | ('any', None)"""
+        r = self._expected(name, args)
+        if name == 'assist' and args and args[0] == DEEP:
+            return ('any', None)         # served at another stack depth: may or may not run out of stack
+        return r
+
+    def _expected(self, name, args):
         try:
             if name == 'configure':
                 cfg = args[0]
@@ -229,9 +249,14 @@ class Reference(object):
                     return ('ok', listify(loads(dumps(v))))
                 except Exception:
                     return ('exc', 'Serialize error')
+            if name in ('run', 'process', '__init__') or name.startswith('_'):
+                return ('exc', None)     # not a request: an error reply with any message
             return ('exc', "'Server' object has no attribute '%s'" % name)
-        except (Exception, SystemExit, KeyboardInterrupt) as e:
-            return ('exc', str(e))
+        except BaseException as e:
+            try:
+                return ('exc', str(e))
+            except Exception:
+                return ('exc', None)     # an exception that cannot even be printed: any message
 
 
 def call(env, name, args):
@@ -251,6 +276,8 @@ def call(env, name, args):
 
 
 def same(got, exp):
+    if exp[0] == 'any':
+        return got[0] in ('ok', 'exc')
     if exp[0] == 'exc':
         if got[0] != 'exc':
             return False
@@ -277,6 +304,42 @@ def run_sequence(root, seq, ch=None):
         got = call(env, name, args)
         results.append((j, got, exp))
     return link, results
+
+
+def deep_request(n, f):
+    src = 'from mchain import A11 as C\na0 = C.m0\n' + ''.join('a%d = a%d\n' % (i, i - 1) for i in range(1, n + 1)) + 'a%d.' % n
+    return ('assist', (src, (n + 3, len('a%d.' % n)), f))
+
+
+def unit_stack(arg):
+    """A request that runs out of stack must not change the replies to later requests.  WHERE in the evaluation the
+    stack ends depends on the depth the request is served at, so every chain length of a window is tried (each on a
+    freshly configured project): some of them end it in the middle of collecting the attribute tables of the hierarchy."""
+    lo, hi = arg
+    part = Part()
+    root = nc.PROJECT_DIR
+    f = os.path.join(root, 'x.py')
+    cfg = ('configure', ({'sources': [root]},))
+    good = ('assist', ('from mchain import A11 as C\nC.', (2, 2), f))
+    ref = Reference()
+    ref.expected(*cfg)
+    want = ref.expected(*good)
+    link = Link(None)
+    env = make_env(link)
+    for n in range(lo, hi):
+        part.count('evaluations')
+        part.count('stack_window_requests')
+        call(env, *cfg)
+        first = call(env, *deep_request(n, f))
+        part.outcome(('stack', first[0]))
+        if first[0] == 'exc':
+            part.count('stack_requests_failed')
+        after = call(env, *good)
+        if not same(after, want):
+            part.violation('reply-changed-after-failing-request:stack-exhausted', 'after the request with an alias chain of %d (%s) the request %s answers %s, a fresh project %s' % (
+                n, short(first), short(good[1][:1]), short(after), short(want)), {'kind': 'stack', 'n': n})
+            break
+    return part
 
 
 def state_of(link):
@@ -417,6 +480,24 @@ def unit_faults(arg):
 
 # ------------------------------------------------------------------ (C) real subprocess
 
+def call_with_deadline(env, name, args, seconds):
+    """the real client blocks for ever when the server never answers: give up after `seconds`, end the server and
+    report ('noreply', ...) like the in-memory link does"""
+    import threading
+    box = []
+    t = threading.Thread(target=lambda: box.append(call(env, name, args)), daemon=True)
+    t.start()
+    t.join(seconds)
+    if box:
+        return box[0]
+    p = getattr(env, 'proc', None)
+    if p is not None:
+        env._killed_by_harness = True
+        p.kill()
+    t.join(10)
+    return ('noreply', 'no reply within %d s' % seconds)
+
+
 def real_sequence(arg):
     """one real server per sequence"""
     seq_items, label = arg
@@ -428,7 +509,7 @@ def real_sequence(arg):
     try:
         for name, args in seq_items:
             exp = ref.expected(name, args)
-            got = call(env, name, args)
+            got = call_with_deadline(env, name, args, 60)
             part.count('real_replies_compared')
             part.outcome(('real', name, got[0]))
             if not same(got, exp):
@@ -436,7 +517,9 @@ def real_sequence(arg):
                                'real server: request %s%s in sequence [%s]: client got %s, in-process API gives %s' % (
                                    name, short(args), label, short(got), short(exp)), {'kind': 'real', 'label': label})
                 break
-        if getattr(env, 'proc', None) is not None and env.proc.poll() is not None:
+            if got[0] == 'noreply':
+                break
+        if getattr(env, 'proc', None) is not None and env.proc.poll() is not None and not getattr(env, '_killed_by_harness', False):
             part.violation('real:server-died', 'server process exited (%s) during sequence [%s]' % (env.proc.returncode, label),
                            {'kind': 'real', 'label': label})
     finally:
@@ -506,6 +589,9 @@ def replay(w):
         if link.server_ended:
             out.append(('server-ended:' + str(link.server_ended).split(':')[0], link.server_ended))
         return out
+    if w['kind'] == 'stack':
+        # the depth this is replayed at differs from the depth it was found at: the whole window is scanned again
+        return [(v['sig'], v['what']) for v in unit_stack((100, 440)).violations]
     if w['kind'] == 'faults':
         x = e1.run_once(fault_body(w['seq']), w['choices'])
         return [(sig + ':' + '+'.join(sorted(set(x.obs['faults']))), what) for sig, what in x.obs['bad']]
@@ -528,6 +614,8 @@ def run(ctx):
     units = [(unit_bfs, (4 if quick else 6, 4000))]
     for seq in FAULT_SEQS + ([] if quick else [[0, 3, 12, 4, 13, 5], [1, 9, 14, 9]]):
         units.append((unit_faults, (seq, 2 if quick else 3)))
+    for lo in range(120, 420, 20):
+        units.append((unit_stack, (lo, lo + 20)))
     ctx.pmap(_dispatch, units, chunksize=1)
     labels = sorted(real_cases(ctx.tier))
     ctx.pmap(unit_real, [(ctx.tier, l) for l in ctx.shuffled(labels)], chunksize=1, jobs=8)
